@@ -119,18 +119,16 @@ def CEv.benign (p : Tag) : CEv → Prop
   | .iterTerm tag => tag ≠ p
   | .term st => st = .completed
 
+theorem keepsReading_of_nonempty (t : Bool) (n : Nat) (h : 0 < n) : Gen.loopKeepsReading t n = true := by
+  simp [Gen.loopKeepsReading]; omega
+
 theorem cstep_keeps (s : CSt) (e : CEv) (p : Tag) (hp : p ∈ s.checklist) (hr : s.reading = true) (he : e.benign p) :
     p ∈ (cstep s e).checklist ∧ (cstep s e).reading = true := by
   have key : ∀ s1 : CSt, p ∈ s1.checklist →
-      p ∈ ({ s1 with reading := !(s1.terminated && s1.checklist.isEmpty) } : CSt).checklist ∧
-      ({ s1 with reading := !(s1.terminated && s1.checklist.isEmpty) } : CSt).reading = true := by
+      p ∈ ({ s1 with reading := Gen.loopKeepsReading s1.terminated s1.checklist.length } : CSt).checklist ∧
+      ({ s1 with reading := Gen.loopKeepsReading s1.terminated s1.checklist.length } : CSt).reading = true := by
     intro s1 h1
-    refine ⟨h1, ?_⟩
-    have : s1.checklist.isEmpty = false := by
-      cases hc : s1.checklist with
-      | nil => rw [hc] at h1; cases h1
-      | cons a l => rfl
-    simp [this]
+    exact ⟨h1, keepsReading_of_nonempty _ _ (List.length_pos_of_mem h1)⟩
   unfold cstep
   simp only [hr, Bool.not_true, Bool.false_eq_true, if_false]
   apply key
@@ -138,8 +136,10 @@ theorem cstep_keeps (s : CSt) (e : CEv) (p : Tag) (hp : p ∈ s.checklist) (hr :
   | data tag =>
     simp only
     split
+    · split
+      · exact hp
+      · exact List.mem_cons_of_mem _ hp
     · exact hp
-    · exact List.mem_cons_of_mem _ hp
   | iterTerm tag =>
     have : tag ≠ p := he
     simp only [List.mem_filter, hp, true_and, decide_eq_true_eq]
@@ -147,7 +147,7 @@ theorem cstep_keeps (s : CSt) (e : CEv) (p : Tag) (hp : p ∈ s.checklist) (hr :
   | term st =>
     have : st = .completed := he
     subst this
-    simpa using hp
+    simpa [Gen.loopChecklistClears] using hp
 
 end SFV.Loop
 
